@@ -318,6 +318,17 @@ def one_run(case, res, sim):
 
 
 def run_case(case):
+    from ..refterm import StreamExhausted
+
+    try:
+        return _run_case(case)
+    except StreamExhausted as e:
+        res = Res()
+        res.viol("blocks_reading_a_report_the_terminal_never_sent", detail=str(e), case=case)
+        return res
+
+
+def _run_case(case):
     res = Res()
     sim = Sim()
     kinds = case["stack"]
